@@ -397,5 +397,17 @@ func (s *Sched) TriggerFor(h primitives.BlockHeight, v primitives.View) *interfa
 	if s.cb == nil {
 		return nil
 	}
+	// a timer can only fire for a pair it was armed for at some time (now = current trigger, earlier = stale trigger); a pair the
+	// node's state already shows but the new term has not registered yet is not something its own timer can produce
+	armed := false
+	for _, r := range s.Log {
+		if r.H == h && r.V == v {
+			armed = true
+			break
+		}
+	}
+	if !armed {
+		return nil
+	}
 	return MakeTrigger(h, v, s.cb)
 }
